@@ -1144,7 +1144,15 @@ func runC16(c *Ctx, r *Rec) {
 		r.undecided("D3-extract", "collection.catalogClass.Extract", "", "not found")
 	}
 	checkParallelCursor(c, r, "D3-parallel-cursor", fileFuncs(c, "collection", ccls))
+	{
+		fds := fileFuncs(c, "collection", ccls, lcls)
+		if an, err := c.impl("collection", "AssociationLike"); err == nil && an != nil {
+			fds = append(fds, fileFuncs(c, "collection", an)...)
+		}
+		checkNoDynamicEquality(c, r, "D2-no-dynamic-equality", fds)
+	}
 	checkPooledEscape(c, r, "D4-pooled-objects-stay-home")
+	checkElementPointersAcrossAppend(c, r, "D2-element-pointers-stay-valid", fileFuncs(c, "collection", ccls, lcls))
 	checkCellsNotShared(c, r, "D4-cells-not-shared")
 	r.floor("D4-pure", 3)
 	r.floor("D4-fresh", 3)
